@@ -146,6 +146,16 @@ func (vc *VC) resolveType(x ast.Expr, pkg *types.Package) (types.Type, *ghostTyp
 				return nil, &ghostType{K: kt, V: types.Typ[types.Bool]}
 			}
 		}
+		// gmap[K]V is written gmap[K][V]? no: use IndexExpr(IndexExpr(gmap,K),V)
+		if inner, ok := t.X.(*ast.IndexExpr); ok {
+			if id, ok := inner.X.(*ast.Ident); ok && id.Name == "gmap" {
+				kt, _ := vc.resolveType(inner.Index, pkg)
+				vt, _ := vc.resolveType(t.Index, pkg)
+				if kt != nil && vt != nil {
+					return nil, &ghostType{K: kt, V: vt}
+				}
+			}
+		}
 		// generic instantiation Name[T]
 		bt, _ := vc.resolveType(t.X, pkg)
 		at, _ := vc.resolveType(t.Index, pkg)
